@@ -37,7 +37,34 @@ Record cfg := mkCfg {
   media_kind : pkind     (* what the binary media handler's serialize() returns *)
 }.
 
-Inductive cev := CText (n : N) | CBin (n : N) | CDisc (c : option Z).
+(* client events as the dicts the server hands over.  A websocket.receive event carries its
+   payload under 'text' or 'bytes'; the unused key is either absent or present with the value
+   None ([both] = true; the ASGI spec treats the two alike, some servers always send both
+   keys).  A websocket.disconnect event has an optional 'code' and (spec 2.3+) may carry a
+   'reason'. *)
+Inductive cev := CText (n : N) (both : bool) | CBin (n : N) (both : bool)
+               | CDisc (c : option Z) (reason : bool).
+
+(* one entry of the event dict *)
+Inductive entry := Absent | NoneV | Val (n : N).
+
+Definition text_entry (e : cev) : entry :=
+  match e with
+  | CText n _ => Val n
+  | CBin _ both => if both then NoneV else Absent
+  | CDisc _ _ => Absent
+  end.
+
+Definition bytes_entry (e : cev) : entry :=
+  match e with
+  | CBin n _ => Val n
+  | CText _ both => if both then NoneV else Absent
+  | CDisc _ _ => Absent
+  end.
+
+(* `event.get(key)` and `try: event[key] except KeyError: None` agree: a missing key and a
+   key whose value is None are the same thing *)
+Definition get (x : entry) : option N := match x with Val n => Some n | _ => None end.
 
 (* what the server's send() does: return, or raise
    OSError (cause text "received NNNN ..." or none), Exception("... code = 1000 (OK) ..."),
@@ -122,7 +149,7 @@ Definition require_accepted (w : ws) : option exc :=
    room, otherwise the pump parks with it; the disconnect flag is set as soon as the event
    is received (even if the pump then parks); after a disconnect the pump ends. *)
 Definition disc_code (e : cev) : option Z :=
-  match e with CDisc c => Some (or1000 c) | _ => None end.
+  match e with CDisc c _ => Some (or1000 c) | _ => None end.
 
 Fixpoint pull (cp : nat) (q : list cev) (cl : list cev)
   : list cev * option cev * list cev * option Z :=
@@ -286,7 +313,7 @@ Definition next_event (fixed : bool) (c : cfg) (w : ws) : (cev + exc + unit) * w
     match client w with
     | e :: r =>
       (inl (inl e),
-       set_handed (handed w || match e with CDisc _ => true | _ => false end) (set_client r w))
+       set_handed (handed w || match e with CDisc _ _ => true | _ => false end) (set_client r w))
     | [] => (inr tt, w)
     end
   else if negb (pump w) then
@@ -296,7 +323,7 @@ Definition next_event (fixed : bool) (c : cfg) (w : ws) : (cev + exc + unit) * w
     if fixed then
       match queue w with
       | e :: r => (inl (inl e), set_queue r w)
-      | [] => (inl (inl (CDisc (flag w))), w)
+      | [] => (inl (inl (CDisc (flag w) false)), w)
       end
     else (inl (inr XAssert), w)
   else
@@ -309,7 +336,7 @@ Definition next_event (fixed : bool) (c : cfg) (w : ws) : (cev + exc + unit) * w
 (* WebSocket._receive *)
 Definition do_receive (fixed : bool) (c : cfg) (w : ws) : (cev + exc + unit) * ws :=
   match next_event fixed c w with
-  | (inl (inl (CDisc co)), w1) =>
+  | (inl (inl (CDisc co _)), w1) =>
     (inl (inr (XDisc (or1000 co))), set_st Closed (set_ccode (Some (or1000 co)) w1))
   | r => r
   end.
@@ -320,14 +347,16 @@ Definition op_recv (fixed : bool) (kind : nat) (c : cfg) (w : ws) : result * ws 
   | None =>
     match do_receive fixed c w with
     | (inl (inl e), w1) =>
-      (match kind, e with
-       | O, CText n => Ret (VText n)
-       | O, _ => Raise XPayload
-       | S O, CBin n => Ret (VBytes n)
-       | S O, _ => Raise XPayload
-       | _, CText n => Ret (VMedia n)
-       | _, CBin n => Ret (VMedia n)
-       | _, CDisc _ => Raise XPayload
+      (match kind with
+       | O =>                                   (* receive_text: event['text'], None if missing *)
+         match get (text_entry e) with Some n => Ret (VText n) | None => Raise XPayload end
+       | S O =>                                 (* receive_data *)
+         match get (bytes_entry e) with Some n => Ret (VBytes n) | None => Raise XPayload end
+       | _ =>                                   (* receive_media: text first, then bytes *)
+         match get (text_entry e) with
+         | Some n => Ret (VMedia n)
+         | None => match get (bytes_entry e) with Some n => Ret (VMedia n) | None => Raise XPayload end
+         end
        end, w1)
     | (inl (inr x), w1) => (Raise x, w1)
     | (inr _, w1) => (Blocked, w1)
